@@ -156,6 +156,8 @@ def run(ctx):
   ctx.check(ok, 'C20.complete', 'gin/selector_map.py::SelectorMap.copy', 'the saved constants keep the stored objects themselves (value map copied shallowly)',
             'SelectorMap.copy does not keep the stored objects themselves (`%s`): constants re-inserted by clear_config() are copies, and a value that cannot be '
             'deep-copied makes clear_config() raise half-way' % [u(a.value) for a in vm], sm_copy.loc(), instance='constants-identity')
+  from .common import record_before_call
+  record_before_call(ctx, 'C20.complete')
 
 
 class Uninterpreted(Exception):
